@@ -99,6 +99,76 @@ pub fn run(target: &str, data: &[u8]) {
     }
 }
 
+/// Generic target (`fuzz_any`): the input is the choice-byte string of one PBT sub, selected by
+/// MHV_FUZZ_SUB=<ID>:<sub>. Every history / builder-call / world sub is decoded from choice
+/// bytes (DESIGN 10.2), so coverage guidance works on the decoded operations directly.
+pub fn run_any(data: &[u8]) {
+    static SEL: std::sync::OnceLock<(String, String, SubFn)> = std::sync::OnceLock::new();
+    let (prop, sub, f) = SEL.get_or_init(|| {
+        let spec = std::env::var("MHV_FUZZ_SUB").unwrap_or_default();
+        let mut it = spec.splitn(2, ':');
+        let (p, s) = (it.next().unwrap_or("").to_string(), it.next().unwrap_or("").to_string());
+        let props = crate::props::all();
+        let f = props.iter().find(|d| d.id == p).and_then(|d| d.sub(&s));
+        let f = match f {
+            Some(f) => f,
+            None => {
+                eprintln!("MHV_FUZZ_SUB={:?} names no sub", spec);
+                std::process::exit(2);
+            }
+        };
+        crate::engine::silence_panics();
+        crate::engine::set_current_prop(&p);
+        // libFuzzer's main is not Rust's: SIGPIPE still has its default disposition here
+        unsafe { libc::signal(libc::SIGPIPE, libc::SIG_IGN) };
+        unsafe { libc::atexit(dump_stats) };
+        if p == "C12" {
+            // as in the PBT workers: descriptor number 0 is free for the cases
+            unsafe { libc::close(0) };
+        }
+        (p, s, f)
+    });
+    let input = Input::Bytes(data.to_vec());
+    CASES.fetch_add(1, Ordering::Relaxed);
+    let mut obs = Obs::default();
+    let r = std::panic::catch_unwind(std::panic::AssertUnwindSafe(|| f(&input, &mut obs)));
+    let fail = match r {
+        Ok(Ok(())) => None,
+        Ok(Err(fl)) => Some(fl),
+        Err(pn) => Some(crate::engine::uncaught_panic(prop, pn)),
+    };
+    if obs.nontrivial || obs.extra_nontrivial > 0 {
+        NONTRIVIAL.fetch_add(1, Ordering::Relaxed);
+    }
+    if let Some(fl) = fail {
+        eprintln!("MHV-VIOLATION property={} sub={} {}: {}", prop, sub, fl.sig, fl.msg.lines().next().unwrap_or(""));
+        dump_stats();
+        std::process::abort();
+    }
+}
+
+/// seed corpus for `fuzz_any`: choice-byte strings of graded lengths (the empty string decodes to
+/// the simplest case of every sub)
+pub fn write_corpus_any(max_len: usize, dir: &std::path::Path) -> usize {
+    use crate::src::filler;
+    let _ = std::fs::create_dir_all(dir);
+    let mut n = 0;
+    for i in 0..96u32 {
+        let len = match i % 6 {
+            0 => (i as usize) % 9,
+            1 => 16 + (i as usize) % 17,
+            2 => max_len / 8,
+            3 => max_len / 3,
+            4 => max_len * 2 / 3,
+            _ => max_len,
+        };
+        let data = filler((i % 3) as usize, (i * 37 + 11) as u8, len.min(max_len));
+        let _ = std::fs::write(dir.join(format!("seed-{:03}", i)), &data);
+        n += 1;
+    }
+    n
+}
+
 /// deterministic seed corpus for a target, written as plain files
 pub fn write_corpus(target: &str, dir: &std::path::Path) -> usize {
     use crate::gen::*;
